@@ -109,3 +109,4 @@ Proof.
   intros Hd Hi. unfold tick_replay, sat_sub.
   destruct (N.eqb_spec (dp_delay_remaining st - 1) 0) as [_|Hne]; [|lia]. rewrite Hi. reflexivity.
 Qed.
+
